@@ -659,8 +659,14 @@ class _StringLiteral(str):
         return self._parse_function(${ctx}_text, _pos)
 
 
+class _BytesLiteral(bytes):
+    def __call__(self, ${ctx}_text, _pos):
+        return self._parse_function(${ctx}_text, _pos)
+
+
 def _wrap_string_literal(string_value, parse_function):
-    result = _StringLiteral(string_value)
+    is_bytes = isinstance(string_value, bytes)
+    result = (_BytesLiteral if is_bytes else _StringLiteral)(string_value)
     result._parse_function = parse_function
     return result
 
@@ -922,6 +928,7 @@ from $super_module import (
     Postfix,
     Prefix,
     _ByteLiteral,
+    _BytesLiteral,
     _Context,
     _IGNORECASE,
     _Metadata,
